@@ -45,6 +45,9 @@ typedef struct vec_cov_range { cov_range *data; size_t len; size_t cap; } vec_co
 #define VEC_NEW_CAP 8
 #endif
 vec_cov_range vec_new(void);
+#define UPTR_ARROW(p) (p)
+#define VERIF_MOVE(p) (p)
+vec_cov_range vec_copy(const vec_cov_range *v);
 #define VERIF_MIN(pa, pb) ((*(pb) < *(pa)) ? (pb) : (pa))
 void vec_push_back(vec_cov_range *v, const cov_range *x);
 cov_range *vec_insert(vec_cov_range *v, const cov_range *pos, const cov_range *x);
